@@ -52,6 +52,8 @@ def mode_yaml_dict(spec: dict) -> dict:
         d["readout"] = rk
     if spec.get("pipeline_seed") is not None:
         d["pipeline_seed"] = spec["pipeline_seed"]
+    if spec.get("working_directory"):
+        d["working_directory"] = spec["working_directory"]
     if spec.get("outputs"):
         d["outputs"] = _outputs_dict(spec["outputs"])
     if spec.get("result_type"):
@@ -92,6 +94,8 @@ def build_mode(spec: dict):
     common = {}
     if spec.get("pipeline_seed") is not None:
         common["pipeline_seed"] = spec["pipeline_seed"]
+    if spec.get("working_directory") and kind != "calibration":
+        common["working_directory"] = spec["working_directory"]
     if spec.get("result_type"):
         common["result_type"] = spec["result_type"]
     if kind == "exposure":
